@@ -10,6 +10,7 @@ import (
 	"github.com/zeebo/errs"
 
 	"storj.io/drpc"
+	"storj.io/drpc/drpcdebug"
 	"storj.io/drpc/drpcenc"
 	"storj.io/drpc/drpcmanager"
 	"storj.io/drpc/drpcmetadata"
@@ -115,6 +116,7 @@ func (c *Conn) Invoke(ctx context.Context, rpc string, enc drpc.Encoding, in, ou
 	if err != nil {
 		return err
 	}
+	drpcdebug.Point("conn.invoke.created")
 	defer func() { err = errs.Combine(err, stream.Close()) }()
 
 	// we have to protect c.wbuf here even though the manager only allows one
@@ -170,6 +172,7 @@ func (c *Conn) NewStream(ctx context.Context, rpc string, enc drpc.Encoding) (_ 
 	if err != nil {
 		return nil, err
 	}
+	drpcdebug.Point("conn.newstream.created")
 
 	if err := c.doNewStream(stream, rpc, metadata); err != nil {
 		return nil, errs.Combine(err, stream.Close())
